@@ -323,18 +323,24 @@ def r3_regex(ctx):
     corpus = ctx.corpus
     cls = repo_cls(corpus)
     helper = corpus.method(cls, '_compile_or_none')
-    if helper is None:
-        raise AnalysisError('C15.R3: _compile_or_none missing')
-    ev = Evaluator(corpus, depth=3)
-    r = ev.run(helper)
-    shape_ok = any(a[0] == 'call' and a[1] == ('name', 're.compile') and a[2] == (('param', 'pattern'),) and not a[3] for a in alts(r)) and any(a == ('const', None) for a in alts(r))
-    ctx.check(shape_ok, 'C15.R3', f'{func_label(helper)}|compile-helper-plain', loc(helper, helper.node), '_compile_or_none is re.compile(pattern) (no flags) or None', f'_compile_or_none changed: {show(r, limit=100)}')
+    if helper is not None:
+        ev = Evaluator(corpus, depth=3)
+        r = ev.run(helper)
+        hp = [a.arg for a in helper.node.args.posonlyargs + helper.node.args.args][1:]
+        shape_ok = bool(hp) and any(a[0] == 'call' and a[1] == ('name', 're.compile') and a[2] == (('param', hp[0]),) and not a[3] for a in alts(r)) and any(a == ('const', None) for a in alts(r))
+        ctx.check(shape_ok, 'C15.R3', f'{func_label(helper)}|compile-helper-plain', loc(helper, helper.node), '_compile_or_none is re.compile(pattern) (no flags) or None', f'_compile_or_none changed: {show(r, limit=100)}')
+    else:
+        # the helper written out at its uses: every compile of a user expression is plain re.compile(<expr>) without flags
+        inline = [c for m_ in cls.methods.values() for c in calls_in(m_.node, local=False) if dotted(c.func) == 're.compile']
+        ctx.floor('C15.R3', 'inline re.compile of the user filters', len(inline), 3)
+        for c in inline:
+            ctx.check(len(c.args) == 1 and not c.keywords, 'C15.R3', 'replicat/repository.py|compile-plain', f'replicat/repository.py:{c.lineno}', 'user filters are compiled with re.compile(expr), no flags', f'`{src(c, 60)}`: user filters are compiled with flags / extra arguments at this site only')
     n = 0
     for f in [m for m in cls.methods.values()] + [x for m in cls.methods.values() for x in m.all_nested()]:
         compiled = set()
         scope = f if f.parent is None else f.parent
         for a in walk_local(scope.node):
-            if isinstance(a, ast.Assign) and isinstance(a.value, ast.Call) and dotted(a.value.func) == 'self._compile_or_none':
+            if isinstance(a, ast.Assign) and isinstance(a.value, ast.Call) and dotted(a.value.func) in ('self._compile_or_none', 're.compile'):
                 compiled |= {t.id for t in a.targets if isinstance(t, ast.Name)}
         for c in calls_in(f.node):
             if isinstance(c.func, ast.Attribute) and c.func.attr in ('search', 'match', 'fullmatch', 'findall', 'finditer') and isinstance(c.func.value, ast.Name) and c.func.value.id in compiled:
